@@ -11,12 +11,14 @@
 #define W_CAT(a, b) W_CAT_(a, b)
 
 namespace w {
+using trompeloeil::_;
 
 #line 1 SLOTFILE
 const char* W_CAT(slot_file, SLOT)() { return __FILE__; }
 
 #define W_WITHS .WITH(wev(eid, 0, wkey(_1))).WITH(wev(eid, 1, wkey(_1)))
 #define W_WITHS2 .WITH(wev(eid, 0, wkey(_1))).WITH(wev(eid, 1, wkey(_2)))
+#define W_WITHS11 .WITH(wev(eid, 0, wkey(_1))).WITH(wev(eid, 1, wkey(_11)))
 #define W_FX .SIDE_EFFECT(wfx(eid, 0)).SIDE_EFFECT(wfx(eid, 1))
 #define W_SEQ0
 #define W_SEQ1 .IN_SEQUENCE(wseq(s.seq[0]))
@@ -63,6 +65,7 @@ Created create_impl(M& mk, const Spec& s) {
     W_FORMS(F_v, v(dm_int(s.m[0])), W_WITHS, W_NONE)
     W_FORMS(F_cf, cf(dm_int(s.m[0])), W_WITHS, W_RET)
     W_FORMS(F_g, g(dm_int(s.m[0]), dm_int(s.m[1])), W_WITHS2, W_RET)
+    W_FORMS(F_w, w(dm_int(s.m[0]), _, _, _, _, _, _, _, _, _, dm_int(s.m[1]), _), W_WITHS11, W_RET)
   }
   return Created{nullptr, 0};
 }
